@@ -72,10 +72,11 @@ type ifacts struct {
 	ge   []lterm                 /* each term ≥ 0 */
 	cong map[ssa.Value][2]int64  /* atom ≡ r (mod m) */
 	sub  map[ssa.Value]ssa.Value /* phi → chosen edge value (case split) */
+	subT map[ssa.Value]lterm     /* min/max/copy result → the operand it equals in this case */
 }
 
 func newFacts() *ifacts {
-	return &ifacts{cong: map[ssa.Value][2]int64{}, sub: map[ssa.Value]ssa.Value{}}
+	return &ifacts{cong: map[ssa.Value][2]int64{}, sub: map[ssa.Value]ssa.Value{}, subT: map[ssa.Value]lterm{}}
 }
 func (f *ifacts) clone() *ifacts {
 	n := newFacts()
@@ -85,6 +86,9 @@ func (f *ifacts) clone() *ifacts {
 	}
 	for k, v := range f.sub {
 		n.sub[k] = v
+	}
+	for k, v := range f.subT {
+		n.subT[k] = v
 	}
 	return n
 }
@@ -168,6 +172,9 @@ func (ip *idxProver) norm(v ssa.Value, f *ifacts) lterm {
 	defer delete(ip.inNorm, v)
 	if w := f.subst(v); w != v {
 		return ip.norm(w, f)
+	}
+	if t, ok := f.subT[v]; ok {
+		return t
 	}
 	switch x := v.(type) {
 	case *ssa.Const:
@@ -673,6 +680,37 @@ func (ip *idxProver) prove(mk func(f *ifacts) lterm, f *ifacts, depth int) bool 
 	if depth >= 3 {
 		return false
 	}
+	/* min(a, b), max(a, b), copy(dst, src) (= min of the lengths): the
+	result is one of the two, the other being no smaller / no larger. */
+	for _, a := range minLikeIn(t, f) {
+		x, y, isMin, ok := ip.minLikeOf(a, f)
+		if !ok {
+			continue
+		}
+		all := true
+		for k := 0; k < 2 && all; k++ {
+			eq, other := x, y
+			if 1 == k {
+				eq, other = y, x
+			}
+			nf := f.clone()
+			nf.subT[a] = eq
+			if isMin {
+				nf.ge = append(nf.ge, other.add(eq, -1))
+			} else {
+				nf.ge = append(nf.ge, eq.add(other, -1))
+			}
+			if ip.contradictory(nf) {
+				continue
+			}
+			if !ip.prove(mk, nf, depth+1) {
+				all = false
+			}
+		}
+		if all {
+			return true
+		}
+	}
 	for _, ph := range phisIn(t, f) {
 		h := ph.Block()
 		all := true
@@ -734,6 +772,47 @@ func (ip *idxProver) prove(mk func(f *ifacts) lterm, f *ifacts, depth int) bool 
 		}
 	}
 	return false
+}
+
+// minLikeIn lists the atoms of t which are results of min, max or copy and not
+// yet decided in f.
+func minLikeIn(t lterm, f *ifacts) []ssa.Value {
+	var out []ssa.Value
+	for a := range t.co {
+		c, ok := a.(*ssa.Call)
+		if !ok {
+			continue
+		}
+		if _, done := f.subT[a]; done {
+			continue
+		}
+		if bi, isB := c.Common().Value.(*ssa.Builtin); isB {
+			switch bi.Name() {
+			case "min", "max", "copy":
+				if 2 == len(c.Common().Args) {
+					out = append(out, a)
+				}
+			}
+		}
+	}
+	sort.Slice(out, func(i, j int) bool { return out[i].Name() < out[j].Name() })
+	return out
+}
+
+// minLikeOf: the two quantities of which a is the smaller (or the larger).
+func (ip *idxProver) minLikeOf(a ssa.Value, f *ifacts) (x, y lterm, isMin, ok bool) {
+	c := a.(*ssa.Call)
+	args := c.Common().Args
+	switch c.Common().Value.(*ssa.Builtin).Name() {
+	case "min", "max":
+		if _, _, isInt := isUnsigned(args[0].Type()); !isInt {
+			return x, y, false, false
+		}
+		return ip.norm(args[0], f), ip.norm(args[1], f), "min" == c.Common().Value.(*ssa.Builtin).Name(), true
+	case "copy":
+		return ip.lenOf(args[0], f), ip.lenOf(args[1], f), true, true
+	}
+	return x, y, false, false
 }
 
 // inLoopValue: v is computed by the loop headed by h (anew on every trip).
